@@ -16,8 +16,12 @@ import (
 // locally: an index x[i] needs a dominating bound (i < len(x), a loop `for i < len(x)`, `i+k < len(x)`) or an entry in
 // the short table of invariants confirmed by reading, keyed by function and indexed expression.
 func c01PostRecover(c *Ctx) {
-	const rule = "C01.formatting-cannot-panic"
-	entry := c.fn("ParseSourceCode")
+	c.postRecover("C01.formatting-cannot-panic", c.fn("ParseSourceCode"), "ParseSourceCode", "formatting of the first diagnostic", 3)
+}
+
+// postRecover: no may-panic site in what the entry point's deferred function runs (itself and the module functions it
+// calls) may be left undischarged: recover() has already run, so a panic there escapes to the caller.
+func (c *Ctx) postRecover(rule string, entry *ssa.Function, entryName, doing string, floor int) {
 	if entry == nil {
 		return
 	}
@@ -54,11 +58,12 @@ func c01PostRecover(c *Ctx) {
 		per[key]++
 		cons := fmt.Sprintf("%s #%d", key, per[key])
 		ok, why := c.dischargePanicSite(s)
-		c.R.Check(rule, cons, c.P.InstrPos(s.In), ok, "this may-panic site runs inside ParseSourceCode's deferred function after recover() (formatting of the first diagnostic): a panic here escapes to the caller of ParseSourceCode; "+why)
+		c.R.Check(rule, cons, c.P.InstrPos(s.In), ok, "this may-panic site runs inside "+entryName+"'s deferred function after recover() ("+doing+"): a panic here escapes to the caller of "+entryName+"; "+why)
 	}
+	c.R.Add(rule, "deferred-function scanned", c.P.Pos(closure.Pos()), OK, "")
 	c.R.Analysed["post_recover_functions"] = len(rr.Order)
 	c.R.Analysed["post_recover_may_panic_sites"] = len(sites)
-	c.R.Floor(rule, 3)
+	c.R.Floor(rule, floor)
 }
 
 // confirmedInvariants: index sites whose bound follows from an invariant that was confirmed by reading; keyed by
